@@ -208,12 +208,12 @@ theorem carry_even (k d o m : Nat) (hd : k < d) (h : (o + 1) * 2 ^ d = (m + 1) *
 /-- Binary-counter step.  The newest root sits at (k, m) on top of the lifted stack of an `m`-leaf
     tree; the loop leaves the lifted stack of an `(m+1)`-leaf tree, adds exactly the merged parents
     (all reference nodes), and the iterator ends on the top root. -/
-theorem mergeLoop_ref (C : Crypto) (bs : Array Bytes) (m : Nat) :
+theorem mergeLoop_ref_eq (C : Crypto) (bs : Array Bytes) (m : Nat) :
     ∀ (k fuel : Nat) (rn : List Node), (rootsStack m).length < fuel →
       ∃ (added : List Node) (top : Nat × Nat),
         mergeLoop C fuel (nodeAt C bs k m :: ((rootsStack m).map (liftN k)).map (fun p => nodeAt C bs p.1 p.2)) rn (iat k m)
           = (((rootsStack (m + 1)).map (liftN k)).map (fun p => nodeAt C bs p.1 p.2), added ++ rn, iat top.1 top.2)
-        ∧ (∀ n ∈ added, ∃ d o, n = nodeAt C bs d o ∧ (o + 1) * 2 ^ d ≤ (m + 1) * 2 ^ k ∧ k < d)
+        ∧ (∀ n ∈ added, ∃ d o, n = nodeAt C bs d o ∧ (o + 1) * 2 ^ d = (m + 1) * 2 ^ k ∧ k < d)
         ∧ ((rootsStack (m + 1)).map (liftN k)).head? = some top
         ∧ (∀ d o, k < d → (o + 1) * 2 ^ d = (m + 1) * 2 ^ k → nodeAt C bs d o ∈ added) := by
   induction m using Nat.strongRecOn with
@@ -306,7 +306,7 @@ theorem mergeLoop_ref (C : Crypto) (bs : Array Bytes) (m : Nat) :
           rw [pow_succ2]
           have : (m / 2 + 1) * (2 * 2 ^ k) = (2 * (m / 2) + 2) * 2 ^ k := by ring
           rw [this]
-          exact Nat.mul_le_mul_right _ (by omega)
+          congr 1; omega
       · rw [e2, hh, map_liftN_lift]; exact htop
       · intro d o hd h
         have hcarry : (m / 2 + 1) * 2 ^ (k + 1) = (m + 1) * 2 ^ k := by
@@ -322,6 +322,19 @@ theorem mergeLoop_ref (C : Crypto) (bs : Array Bytes) (m : Nat) :
           simp
         · have := hcomp d o (by omega) (by rw [hcarry]; exact h)
           simp [this]
+
+/-- (the form used by the append-side proofs: the added nodes lie inside the new length) -/
+theorem mergeLoop_ref (C : Crypto) (bs : Array Bytes) (m : Nat) :
+    ∀ (k fuel : Nat) (rn : List Node), (rootsStack m).length < fuel →
+      ∃ (added : List Node) (top : Nat × Nat),
+        mergeLoop C fuel (nodeAt C bs k m :: ((rootsStack m).map (liftN k)).map (fun p => nodeAt C bs p.1 p.2)) rn (iat k m)
+          = (((rootsStack (m + 1)).map (liftN k)).map (fun p => nodeAt C bs p.1 p.2), added ++ rn, iat top.1 top.2)
+        ∧ (∀ n ∈ added, ∃ d o, n = nodeAt C bs d o ∧ (o + 1) * 2 ^ d ≤ (m + 1) * 2 ^ k ∧ k < d)
+        ∧ ((rootsStack (m + 1)).map (liftN k)).head? = some top
+        ∧ (∀ d o, k < d → (o + 1) * 2 ^ d = (m + 1) * 2 ^ k → nodeAt C bs d o ∈ added) := by
+  intro k fuel rn hf
+  obtain ⟨added, top, h1, h2, h3, h4⟩ := mergeLoop_ref_eq C bs m k fuel rn hf
+  exact ⟨added, top, h1, fun n hn => by obtain ⟨d, o, e, hb, hd⟩ := h2 n hn; exact ⟨d, o, e, Nat.le_of_eq hb, hd⟩, h3, h4⟩
 
 end HC.RefProof
 
